@@ -180,7 +180,7 @@ def order_worker(job):
             sb = os.path.join(base, "t%d" % t)
             os.makedirs(sb)
             nodes = treegen.random_tree(rng, "r", max_nodes=rng.choice([8, 20, 40]), max_depth=5, names=NAMES, p_link=0.25, p_dir=0.4,
-                                        link_kinds=("file", "dir", "dangling", "outside"))
+                                        link_kinds=("file", "dir", "dangling", "outside", "ancestor"))
             nodes.append(treegen.Node("lroot", "l", target="r"))
             treegen.build(sb, nodes)
             cases = []
@@ -225,10 +225,16 @@ def order_worker(job):
                 mind = int(args[args.index("-mindepth") + 1]) if "-mindepth" in args else 0
                 maxd = int(args[args.index("-maxdepth") + 1]) if "-maxdepth" in args else None
                 ents, w = refwalk.walk_list([root], mode[1], mind, maxd, df, True, sb)
-                if w.errors or w.out_of_domain or w.optional:
-                    st.inc("follow_mode_sequences_not_judged(loop or error in the tree)")
+                if w.out_of_domain or any(er[0] not in ("loop",) for er in w.errors):
+                    st.inc("follow_mode_sequences_not_judged(error other than a link loop)")
                     continue
                 exp = [e.path for e in ents]
+                if w.optional:
+                    # a link that closes a directory cycle may or may not be listed itself; everything else — in particular
+                    # its later siblings — must still be visited, in order
+                    st.inc("follow_mode_sequences_with_link_loop")
+                    exp = [p for p in exp if p not in w.optional]
+                    paths = [p for p in paths if p not in w.optional]
                 st.inc("follow_mode_sequences_compared")
                 if paths != exp:
                     sig = None
@@ -319,6 +325,7 @@ def run(ctx):
     ctx.pmap(order_worker, [(k, ctx.scale(10, 300), ctx.seed) for k in range(nw)])
     ctx.pmap(bytes_order_worker, [(k, ctx.scale(12, 400), ctx.seed) for k in range(nw)])
     ctx.require("non_utf8_sorted_runs", 20)
+    ctx.require("follow_mode_sequences_with_link_loop", 3)
     ctx.require("order_runs(-H,symlinked-root,depth)", 5)
     ctx.require("order_runs(-L,symlinked-root,depth)", 5)
     for key in ("runs_with_subtree_cut", "metamorphic_depth_pairs", "runs_depth_first(depth)", "runs_depth_first(delete)", "binary_runs"):
